@@ -14,24 +14,7 @@ use dlt_core::filtering::ProcessedDltFilterConfig;
 use dlt_core::parse::*;
 use serde_json::json;
 
-struct Sink;
-impl log::Log for Sink {
-    fn enabled(&self, _: &log::Metadata) -> bool {
-        true
-    }
-    fn log(&self, record: &log::Record) {
-        // format the arguments (this is what evaluates the expressions) and drop the text
-        use std::fmt::Write;
-        thread_local! { static BUF: std::cell::RefCell<String> = const { std::cell::RefCell::new(String::new()) }; }
-        BUF.with(|b| {
-            let mut b = b.borrow_mut();
-            b.clear();
-            let _ = write!(b, "{}", record.args());
-        });
-    }
-    fn flush(&self) {}
-}
-static SINK: Sink = Sink;
+
 
 fn use_message(m: &Message, input: &[u8], what: &str, loc: &mut Local) {
     let details = || json!({"input_hex": hex_short(input), "input_len": input.len(), "entry": what, "message": fp(m)});
@@ -111,8 +94,7 @@ fn ti(kind: TypeInfoKind) -> TypeInfo {
 pub fn run(ctx: &Ctx) {
     ctx.set_rule("case = (byte string, storage mode), run through every slice entry point (message parser under 5 filter configurations, skipper, storage-header skipper and search, fixed-size string extraction at 7 sizes) and, for every returned message, re-serialisation, byte_len, argument len/as_bytes/to_real_value/valid; non-trivial = the parser returned a message; overflow checks and debug assertions are compiled in");
     ctx.assume("allocation failure and stack overflow abort the process and would be reported as a machinery failure (exit 2) by the driver, not as a verdict; none occurred");
-    log::set_logger(&SINK).ok();
-    log::set_max_level(log::LevelFilter::Off);
+    install_sink_logger();
     let filters = filter_configs();
     let filters = &filters;
     for f in decode_inputs(ctx.tier) {
